@@ -221,9 +221,11 @@ def run_harness(h, logdir, playback=False):
             "bounds": h.bounds, "text": text if playback else None}
 
 
-def run_many(harnesses, logdir, budget_gb=44, max_par=12, order_seed=0):
+def run_many(harnesses, logdir, budget_gb=None, max_par=12, order_seed=0):
     """Run harnesses in parallel under a memory budget (sum of mem_gb estimates)."""
     import random
+    if budget_gb is None:
+        budget_gb = float(os.environ.get("VERIF_BUDGET_GB", "44"))
     hs = list(harnesses)
     random.Random(order_seed).shuffle(hs)
     hs.sort(key=lambda h: -h.mem_gb)  # big ones first, stable w.r.t. the seeded shuffle
